@@ -1,6 +1,17 @@
 (* C20 -- Python-binding array routines compute the documented per-base and binned values.
-   Only statements, closed by [exact], with Print Assumptions beneath each. *)
-From BT Require Import Base.Util Model.PyArrays Proofs.PyArraysGeom.
+   Only statements, closed by [exact], with Print Assumptions beneath each.
+
+   Model/PyArrays.v: [values_wig] / [values_bed] are intervals_to_array / entries_to_array from the fetch
+   clamp on (clamp, fetch through the reader's overlap filter, to_array / to_entry_array /
+   to_array_bins / to_entry_array_bins with their VecDeque loop, out-of-bounds fill), branch for branch,
+   panics explicit; [wig_at] / [bed_at] / [base_cell] / [bin_cell] / [stat_of] / [covered_vals] are the
+   documentation of `values`.  Numbers are exact (eighths); a cell [OQ n d] is the exact quotient n/d.
+   [wig_ok 0 len vals]: stored bigWig values lie in [0, len), are non-empty, disjoint and in start order;
+   [bed_ok 0 len ents]: bigBed entries lie in [0, len], are non-empty, starts do not decrease (any overlap).
+   [touch]: whether the bigBed reader also hands over entries that merely touch the fetched range (it does
+   when their block is read at all) -- the theorems hold either way. *)
+From BT Require Import Base.Util Model.PyArrays Proofs.PyArraysGeom Proofs.PyArraysCover Proofs.PyArraysBed
+  Proofs.PyArraysValues.
 Local Open Scope Z_scope.
 
 (* The bin the routines pick for a base is the one whose whole-number span holds it, for every width. *)
@@ -9,3 +20,87 @@ Theorem C20_bin_index_spec : forall pos span bins, 0 <= pos < span -> 0 < bins -
   0 <= k < bins /\ bin_edge k span bins <= pos < bin_edge (k + 1) span bins.
 Proof. exact bin_index_spec. Qed.
 Print Assumptions C20_bin_index_spec.
+
+(* Per base: for every range [s, e), also below 0 and past the chromosome end, every `missing` and `oob`
+   (NaN included), the call does not panic and cell p - s is: oob outside [0, len); the stored value
+   (bigWig) / the number of entries overlapping p (bigBed) where there is data; missing where there is none. *)
+Theorem C20_per_base : forall touch len vals ents s e st missing oob,
+  wig_ok 0 len vals -> bed_ok 0 len ents -> s < e ->
+  values_wig len vals s e None st missing oob
+    = Ok (map (base_cell (wig_at vals) len missing oob) (seqZ s (Z.to_nat (e - s))))
+  /\ values_bed touch len ents s e None st missing oob
+    = Ok (map (base_cell (bed_at ents) len missing oob) (seqZ s (Z.to_nat (e - s)))).
+Proof. exact per_base_thm. Qed.
+Print Assumptions C20_per_base.
+
+(* Bins, exact mode, EVERY bin count 1..e-s (whole-number bin width or not): bin k spans
+   [s + floor(k(e-s)/bins), s + floor((k+1)(e-s)/bins)); its cell is oob when the span holds a base outside
+   [0, len), else the mean / min / max over the covered bases of the span, missing when none is covered. *)
+Theorem C20_bins : forall touch len vals ents s e bins st missing oob,
+  wig_ok 0 len vals -> bed_ok 0 len ents -> s < e -> 0 < bins <= e - s ->
+  values_wig len vals s e (Some bins) st missing oob
+    = Ok (map (fun k => bin_cell (wig_at vals) len st missing oob
+                          (s + bin_edge k (e - s) bins) (s + bin_edge (k + 1) (e - s) bins))
+              (seqZ 0 (Z.to_nat bins)))
+  /\ values_bed touch len ents s e (Some bins) st missing oob
+    = Ok (map (fun k => bin_cell (bed_at ents) len st missing oob
+                          (s + bin_edge k (e - s) bins) (s + bin_edge (k + 1) (e - s) bins))
+              (seqZ 0 (Z.to_nat bins))).
+Proof. exact bins_thm. Qed.
+Print Assumptions C20_bins.
+
+(* Never NaN (nor an infinity) for finite data and finite missing / oob, per base and for every bin count:
+   every cell is a number n/d with d > 0.  (Stored values are numbers by construction in the model.) *)
+Theorem C20_bins_nan_free : forall touch len vals ents s e obins st m o,
+  wig_ok 0 len vals -> bed_ok 0 len ents -> s < e ->
+  match obins with Some bins => 0 < bins <= e - s | None => True end ->
+  exists cw cb, values_wig len vals s e obins st (FV m) (FV o) = Ok cw
+             /\ values_bed touch len ents s e obins st (FV m) (FV o) = Ok cb
+             /\ Forall (fun c => exists n d, c = OQ n d /\ 0 < d) cw
+             /\ Forall (fun c => exists n d, c = OQ n d /\ 0 < d) cb.
+Proof. exact nan_free_thm. Qed.
+Print Assumptions C20_bins_nan_free.
+
+(* The requested portion outside the chromosome holds the out-of-bounds value: every base outside [0, len),
+   and every bin whose span holds such a base. *)
+Theorem C20_oob : forall touch len vals ents s e st missing oob,
+  wig_ok 0 len vals -> bed_ok 0 len ents -> s < e ->
+  (exists cw cb, values_wig len vals s e None st missing oob = Ok cw
+              /\ values_bed touch len ents s e None st missing oob = Ok cb
+              /\ forall p, s <= p < e -> p < 0 \/ len <= p ->
+                   nth (Z.to_nat (p - s)) cw ONaN = out_of_fl oob /\ nth (Z.to_nat (p - s)) cb ONaN = out_of_fl oob)
+  /\ forall bins, 0 < bins <= e - s ->
+     exists cw cb, values_wig len vals s e (Some bins) st missing oob = Ok cw
+                /\ values_bed touch len ents s e (Some bins) st missing oob = Ok cb
+                /\ forall k, 0 <= k < bins ->
+                     s + bin_edge k (e - s) bins < 0 \/ len < s + bin_edge (k + 1) (e - s) bins ->
+                     nth (Z.to_nat k) cw ONaN = out_of_fl oob /\ nth (Z.to_nat k) cb ONaN = out_of_fl oob.
+Proof. exact oob_thm. Qed.
+Print Assumptions C20_oob.
+
+(* Non-vacuity: concrete layouts meet the hypotheses; a non-integral width (5 bases in 3 bins, edges 0 1 3 5),
+   a range sticking out on both sides, overlapping entries. *)
+Definition ex_vals : list wval :=
+  [ {| w_start := 1; w_end := 3; w_val := 8 |}; {| w_start := 4; w_end := 5; w_val := 20 |} ].      (* 1.0, 2.5 *)
+Definition ex_ents : list bent :=
+  [ {| b_start := 0; b_end := 4 |}; {| b_start := 2; b_end := 3 |}; {| b_start := 2; b_end := 6 |} ].
+Example C20_example_hyps : wig_ok 0 6 ex_vals /\ bed_ok 0 6 ex_ents.
+Proof. cbn. lia. Qed.
+Example C20_example_bins_wig :
+  values_wig 6 ex_vals 0 5 (Some 3) Mean (FV (-8)) FNaN = Ok [OQ (-8) 1; OQ 16 2; OQ 20 1]      (* -1 (missing), 1, 2.5 *)
+  /\ values_wig 6 ex_vals (-1) 7 (Some 3) Mean (FV 0) FNaN = Ok [ONaN; OQ 16 2; ONaN].           (* oob = NaN at both ends *)
+Proof. split; vm_compute; reflexivity. Qed.
+Example C20_example_bins_bed :
+  values_bed true 6 ex_ents 0 5 (Some 2) Mean (FV 20) FNaN = Ok [OQ 16 2; OQ 48 3]                (* depths 1 1 | 3 2 1 *)
+  /\ values_bed true 6 ex_ents 0 5 (Some 2) Min (FV 20) FNaN = Ok [OQ 8 1; OQ 8 1].
+Proof. split; vm_compute; reflexivity. Qed.
+Example C20_example_per_base :
+  values_wig 6 ex_vals (-1) 7 None Mean (FV 0) (FV 56)
+    = Ok [OQ 56 1; OQ 0 1; OQ 8 1; OQ 8 1; OQ 0 1; OQ 20 1; OQ 0 1; OQ 56 1]
+  /\ values_bed false 6 ex_ents (-2) 8 None Mean (FV 20) (FV 56)
+    = Ok [OQ 56 1; OQ 56 1; OQ 8 1; OQ 8 1; OQ 24 1; OQ 16 1; OQ 8 1; OQ 8 1; OQ 56 1; OQ 56 1].
+Proof. split; vm_compute; reflexivity. Qed.
+(* the repaired D11b witness: 3 bases in 2 bins, one value on [1,2): bin 0 = [0,1) missing, bin 1 = [1,3) mean 1 *)
+Example C20_example_d11b :
+  values_wig 3 [ {| w_start := 1; w_end := 2; w_val := 8 |} ] 0 3 (Some 2) Mean (FV 0) FNaN = Ok [OQ 0 1; OQ 8 1].
+Proof. vm_compute. reflexivity. Qed.
